@@ -412,6 +412,22 @@ func genC05(e *emitter, tier string, seed uint64) {
 			}
 		}
 	}
+	// (f') what an early return in the UNLOCKING script hands to the locking script: each script has its own alt stack, and
+	//      an empty locking script is skipped as after a normal end
+	for _, era := range eras {
+		unlocks := []string{"516a", "516b516a", "516b526b516a", "51516b6a", "516b51636a68", "516b5163006a68", "6a", "516b6a", "00516b6a", "516b516a51", "516b51"}
+		locks := []string{"", "6c", "6c51", "6c6c", "51", "6b", "6c87", "516c", "74", "6c76", "00", "6a", "6c6a"}
+		for _, u := range unlocks {
+			for _, l := range locks {
+				var lb []byte
+				if l != "" {
+					lb = mustHex(l)
+				}
+				noteVerdict(e, ixExec(e, era, mustHex(u), lb), "return-handover")
+				noteVerdict(e, ixExec(e, era|fCleanStack|fBip16, mustHex(u), lb), "return-handover")
+			}
+		}
+	}
 	// (g) a P2SH-shaped output with an unlocking script that is not push-only: refused where pay-to-script-hash exists
 	//     (BIP16 flag before Genesis) or under SIGPUSHONLY, an ordinary hash puzzle otherwise
 	for _, redeem := range [][]byte{{0x51}, {0x00}, {0x51, 0x51, 0x87}, {0x6a}, r.bytes(20)} {
